@@ -206,10 +206,34 @@ impl Scenario for SqlScenario {
             for t in [&mut a, &mut b] {
                 t["storage"] = json!(fmt);
                 t["row_group"] = json!(*rng.pick(&[1u64, 2, 3, 5, 1000]));
+                if rng.chance(1, 3) {
+                    // hive layout needs a partition value for every row: no NULL keys in such a table
+                    t["hive"] = json!(true);
+                    if let Some(parts) = t["parts"].as_array_mut() {
+                        for steps in parts.iter_mut().filter_map(|p| p.as_array_mut()) {
+                            for st in steps.iter_mut() {
+                                if let Some(rows) = st.get_mut("b").and_then(|b| b.as_array_mut()) {
+                                    for r in rows.iter_mut().filter_map(|r| r.as_array_mut()) {
+                                        if r[0].is_null() {
+                                            r[0] = json!(0);
+                                        }
+                                    }
+                                }
+                            }
+                        }
+                    }
+                }
                 t["sorted"] = json!(false);
                 t["view"] = json!(false);
             }
             sqlsim::generate_file_cfg(rng, &mut knobs);
+            // (string-typed casts of the integer key over files with statistics run into an unrelated planner
+            // defect: min/max statistics are carried through CAST(k AS VARCHAR) as if the cast were monotonic,
+            // "Interval's lower bound 2 is greater than the upper bound 10" - statistics soundness is not among
+            // the properties decided here, so these variants stay with the simulated sources)
+            if matches!(q.get("kt").and_then(|x| x.as_str()), Some("utf8" | "dict" | "view")) {
+                q.as_object_mut().map(|m| m.remove("kt"));
+            }
         }
         if self.dynamic_filters {
             // memory pressure is not C31's subject (and would only re-find the NLJ fallback findings)
@@ -235,7 +259,8 @@ impl Scenario for SqlScenario {
             "env": env,
             "consume": *rng.pick(&["stream", "partitions"]),
             "store": if self.file_tables {
-                json!({"chunk": *rng.pick(&[0u64, 0, 7, 64, 1000]), "pending_every": *rng.pick(&[0u64, 0, 1, 3]), "latency_ms": *rng.pick(&[0u64, 0, 2, 9]), "fail_get": Value::Null})
+                json!({"chunk": *rng.pick(&[0u64, 0, 7, 64, 1000]), "pending_every": *rng.pick(&[0u64, 0, 1, 3]), "latency_ms": *rng.pick(&[0u64, 0, 2, 9]), "fail_get": Value::Null,
+                       "list_order": if rng.chance(1, 2) { rng.range(1, 1_000_000) } else { 0 }})
             } else {
                 Value::Null
             },
@@ -412,6 +437,9 @@ async fn run(case: Value, mode: Mode) -> Outcome {
                             // rows lost, nothing invented, and the join re-read a file scan as its left side
                             _ if bounded_pool && has_missing && !has_extra && plans.iter().any(sqlsim::nlj_left_reexecution_over_file_scan) => {
                                 sim::set_tag("nlj-fallback-left-reexecution")
+                            }
+                            _ if case["knobs"]["datafusion.optimizer.preserve_file_partitions"].as_u64().unwrap_or(0) > 0 && plans.iter().any(sqlsim::join_over_value_grouped_file_scan) => {
+                                sim::set_tag("preserve-file-partitions-join")
                             }
                             _ => {}
                         }
